@@ -246,6 +246,11 @@ func (b *Builder) epsilonClosureOnePass(root nfa.StateID) ([]closureEntry, bool,
 					return nil, false, ErrNotOnePass
 				}
 			case nfa.LookEndText, nfa.LookEndLine:
+				// Search reports a match only at the end of input, so an end anchor
+				// holds there - unless a byte can still be consumed after it ($a).
+				if b.consumesInput(next, map[nfa.StateID]bool{}) {
+					return nil, false, ErrNotOnePass
+				}
 			default:
 				return nil, false, ErrNotOnePass
 			}
@@ -261,6 +266,32 @@ func (b *Builder) epsilonClosureOnePass(root nfa.StateID) ([]closureEntry, bool,
 	}
 
 	return closure, b.matched, nil
+}
+
+// consumesInput reports whether a byte-consuming state is reachable from id
+// through epsilon transitions alone.
+func (b *Builder) consumesInput(id nfa.StateID, visited map[nfa.StateID]bool) bool {
+	state := b.nfa.State(id)
+	if state == nil || visited[id] {
+		return false
+	}
+	visited[id] = true
+	switch state.Kind() {
+	case nfa.StateMatch, nfa.StateFail:
+		return false
+	case nfa.StateSplit:
+		left, right := state.Split()
+		return b.consumesInput(left, visited) || b.consumesInput(right, visited)
+	case nfa.StateEpsilon:
+		return b.consumesInput(state.Epsilon(), visited)
+	case nfa.StateCapture:
+		_, _, next := state.Capture()
+		return b.consumesInput(next, visited)
+	case nfa.StateLook:
+		_, next := state.Look()
+		return b.consumesInput(next, visited)
+	}
+	return true
 }
 
 // stackPush adds an NFA state to the DFS stack.
